@@ -226,4 +226,45 @@ __CPROVER_assigns(*out, h3v_live, h3v_failed)
 __CPROVER_ensures(C17_POST(__CPROVER_return_value))
 __CPROVER_ensures((polygon->geoloop.numVerts != 0 && (res < 0 || res > 15)) ==> __CPROVER_return_value == S_ERR_RES_DOMAIN)
 __CPROVER_ensures((polygon->geoloop.numVerts != 0 && res >= 0 && res <= 15 && !S_FLAGS_OK(flags)) ==> __CPROVER_return_value == S_ERR_OPTION_INVALID);
+
+/* ================= legacy polygonToCells (C17; C15 flag clause) ================= */
+H3Error validatePolygonFlags_contract(uint32_t flags)
+__CPROVER_requires(1) __CPROVER_assigns()
+__CPROVER_ensures(__CPROVER_return_value == (S_FLAGS_OK(flags) ? S_ERR_SUCCESS : S_ERR_OPTION_INVALID));
+
+/* frame-only contracts of the geometric callees */
+H3Error maxPolygonToCellsSize_frame(const GeoPolygon *geoPolygon, int res, uint32_t flags, int64_t *out)
+__CPROVER_requires(__CPROVER_rw_ok(out, sizeof(int64_t)) && h3v_n >= 12 && h3v_n <= (((int64_t)1) << 36))
+__CPROVER_assigns(*out)
+__CPROVER_ensures(__CPROVER_return_value <= 15 && __CPROVER_return_value != S_ERR_MEMORY_ALLOC)
+__CPROVER_ensures(__CPROVER_return_value == 0 ==> *out == h3v_n);
+H3Error _getEdgeHexagons_frame(const GeoLoop *geoloop, int64_t numHexagons, int res, int64_t *numSearchHexes, H3Index *search, H3Index *found)
+__CPROVER_requires(__CPROVER_rw_ok(numSearchHexes, sizeof(int64_t)) && numHexagons == h3v_n &&
+                   __CPROVER_rw_ok(search, sizeof(H3Index) * h3v_n) && __CPROVER_rw_ok(found, sizeof(H3Index) * h3v_n))
+__CPROVER_assigns(*numSearchHexes, __CPROVER_object_whole(search), __CPROVER_object_whole(found))
+__CPROVER_ensures(__CPROVER_return_value <= 15 && __CPROVER_return_value != S_ERR_MEMORY_ALLOC)
+__CPROVER_ensures(*numSearchHexes >= 0 && *numSearchHexes <= h3v_n);
+H3Error cellToLatLng_frame(H3Index cell, LatLng *g)
+__CPROVER_requires(__CPROVER_rw_ok(g, sizeof(LatLng))) __CPROVER_assigns(*g) __CPROVER_ensures(__CPROVER_return_value <= 15);
+bool pointInsidePolygon_frame(const GeoPolygon *geoPolygon, const BBox *bboxes, const LatLng *coord)
+__CPROVER_requires(1) __CPROVER_assigns() __CPROVER_ensures(1);
+
+/* with invalid flags: refused before anything is allocated (C15) */
+H3Error polygonToCells_badflags(const GeoPolygon *geoPolygon, int res, uint32_t flags, H3Index *out)
+__CPROVER_requires(C17_PRE && !S_FLAGS_OK(flags))
+__CPROVER_assigns(h3v_live, h3v_failed)
+__CPROVER_ensures(__CPROVER_return_value == S_ERR_OPTION_INVALID && h3v_live == __CPROVER_old(h3v_live) && !h3v_failed);
+H3Error maxPolygonToCellsSize_badflags(const GeoPolygon *geoPolygon, int res, uint32_t flags, int64_t *out)
+__CPROVER_requires(!S_FLAGS_OK(flags))
+__CPROVER_assigns()
+__CPROVER_ensures(__CPROVER_return_value == S_ERR_OPTION_INVALID);
+
+H3Error polygonToCells_c17(const GeoPolygon *geoPolygon, int res, uint32_t flags, H3Index *out)
+__CPROVER_requires(C17_PRE && h3v_live == h3v_live0)
+__CPROVER_requires(h3v_n >= 12 && h3v_n <= (((int64_t)1) << 36))
+__CPROVER_requires(__CPROVER_is_fresh(geoPolygon, sizeof(GeoPolygon)) && geoPolygon->numHoles >= 0 && geoPolygon->numHoles <= (1 << 20))
+__CPROVER_requires(__CPROVER_is_fresh(geoPolygon->holes, sizeof(GeoLoop) * (geoPolygon->numHoles > 0 ? geoPolygon->numHoles : 1)))
+__CPROVER_requires(__CPROVER_is_fresh(out, sizeof(H3Index) * h3v_n))
+__CPROVER_assigns(__CPROVER_object_whole(out), h3v_live, h3v_failed)
+__CPROVER_ensures(C17_POST(__CPROVER_return_value));
 #endif
